@@ -4,6 +4,9 @@
 //! render exactly the same post-state. Decoder / renderer: lean/Driver/SimStep.lean.
 //!
 //! usage: simstep run <programs> <lines-per-program>        (seed from VERIF_SEED)
+//!        simstep runlx <programs> <lines-per-program>      only CALL / TCALL of a builtin in the table of
+//!                            lean/Marwood/Vm/ListExt.lean; `ext := X lx <idx> <eqbit>`: the DRIVER computes the builtin
+//!                            with `ListExt.builtinEval` (bucket `listext`, see ../simstep_lx.rs). `run` is unchanged.
 //!        simstep probe       six operands that index outside their structure (Rust panics, the model's total
 //!                            signatures do not): NOT part of the stream, for the report only
 //!
@@ -447,6 +450,8 @@ struct Class {
     /// inline values rendered as their representative) stores the representative. Counted as bucket "alias"; only
     /// registers, stack and the number of changed cells are compared for these steps.
     alias: bool,
+    /// CALL / TCALL of a generic builtin of the `listExt` table: (table index, `Vm::eqv` of the operands of `eq?`)
+    lx: Option<(usize, bool)>,
 }
 
 fn is_inline_rc(v: &VCell) -> bool {
@@ -508,6 +513,7 @@ fn classify(vm: &Vm) -> Option<Class> {
     };
     let mut ext = false;
     let mut alias = false;
+    let mut lx = None;
     let kind: String = match op {
         OpCode::CallAcc | OpCode::TCallAcc | OpCode::Enter => {
             let callee = match &accv {
@@ -517,6 +523,9 @@ fn classify(vm: &Vm) -> Option<Class> {
                     let k = builtin_kind(b.desc()).0;
                     if (k == "generic" || k == "eval") && !matches!(op, OpCode::Enter) {
                         ext = true;
+                    }
+                    if k == "generic" && !matches!(op, OpCode::Enter) {
+                        lx = lx_index(b.desc()).map(|i| (i, lx_eqbit(vm, i, slots, sp)));
                     }
                     format!("builtin-{}", k)
                 }
@@ -575,7 +584,7 @@ fn classify(vm: &Vm) -> Option<Class> {
         || (matches!(op, OpCode::Enter) && matches!(accv, VCell::Closure(_, _)))
         || kind.starts_with("builtin-callcc");
     let kind = if allocating && vm.verif_heap().verif_free_list().len() < 3 { format!("{}+heapgrow", kind) } else { kind };
-    Some(Class { op: op_name(&op), kind, ext, alias })
+    Some(Class { op: op_name(&op), kind, ext, alias, lx })
 }
 
 // ------------------------------------------------------------------ programs
@@ -583,6 +592,7 @@ fn classify(vm: &Vm) -> Option<Class> {
 // program corpus (feature sessions, hand-assembled bytecode, generated sessions): textually included to keep
 // this file under 800 lines
 include!("../simstep_progs.rs");
+include!("../simstep_lx.rs");
 
 const MAX_INSTR: u64 = 40_000;
 
@@ -590,6 +600,7 @@ const MAX_INSTR: u64 = 40_000;
 /// recorded; `emit` receives the finished line.
 fn run_program(
     prog: &Program,
+    lx_mode: bool,
     visit: &mut dyn FnMut(u64, &Class) -> bool,
     emit: &mut dyn FnMut(String),
 ) {
@@ -651,6 +662,12 @@ fn run_program(
                     }
                 };
                 let ext = if c.ext { ext } else { "X none".to_string() };
+                // mode `runlx`: the driver computes the builtin itself (`ListExt.builtinEval`), nothing is recorded
+                let lx = if lx_mode { c.lx } else { None };
+                let ext = match lx {
+                    Some((idx, bit)) => format!("X lx {} {}", idx, if bit { 1 } else { 0 }),
+                    None => ext,
+                };
                 // hand-assembled bytecode is marked (`+syn`): it violates the code discipline of the invariant
                 // `GoodI` on purpose, and the side-condition stream evaluates only the clauses of `Good` on it
                 let kind = format!(
@@ -662,7 +679,7 @@ fn run_program(
                     "i:{}:{}:{}:{}:{}",
                     c.op,
                     kind,
-                    if c.ext { "ext" } else if c.alias { "alias" } else { "core" },
+                    if lx.is_some() { "listext" } else if c.ext { "ext" } else if c.alias { "alias" } else { "core" },
                     if scrambled { "scr" } else { "lin" },
                     inl
                 );
@@ -692,6 +709,7 @@ fn cmd_run(args: &[String], seed: u64) {
         let mut occ: BTreeMap<String, Vec<u64>> = BTreeMap::new();
         run_program(
             prog,
+            false,
             &mut |n, c| {
                 occ.entry(c.key()).or_default().push(n);
                 false
@@ -729,6 +747,7 @@ fn cmd_run(args: &[String], seed: u64) {
         // pass 2: the same program again, recording the chosen instructions
         run_program(
             prog,
+            false,
             &mut |n, _| chosen.contains(&n),
             &mut |line| {
                 total += 1;
@@ -757,7 +776,7 @@ fn cmd_probe() {
             fill: None,
         };
         let mut last = String::new();
-        run_program(&prog, &mut |_, _| true, &mut |line| last = line);
+        run_program(&prog, false, &mut |_, _| true, &mut |line| last = line);
         // only the last recorded instruction (the probe itself) is of interest
         writeln!(out, "{}", last).unwrap();
     }
@@ -775,7 +794,7 @@ fn cmd_witness() {
         patch: Some(0),
         fill: None,
     };
-    run_program(&prog, &mut |_, _| true, &mut |line| writeln!(out, "{}", line).unwrap());
+    run_program(&prog, false, &mut |_, _| true, &mut |line| writeln!(out, "{}", line).unwrap());
 }
 
 fn main() {
@@ -784,6 +803,7 @@ fn main() {
     let seed: u64 = std::env::var("VERIF_SEED").ok().and_then(|s| s.parse().ok()).unwrap_or(1);
     match args.first().map(|s| s.as_str()) {
         Some("run") if args.len() >= 3 => cmd_run(&args[1..], seed),
+        Some("runlx") if args.len() >= 3 => cmd_runlx(&args[1..], seed),
         Some("probe") => cmd_probe(),
         Some("witness") => cmd_witness(),
         _ => {
